@@ -45,6 +45,8 @@ def render(R, direction, minor, headers, body=b"", fold=True, eol_choice=None):
     for name, value in headers:
         pre = R.choice(["", " ", "  ", "\t"])
         post = R.choice(["", " ", "\t "])
+        gap = R.choice([""] * 30 + [" ", "\t", "  "])      # blanks between the name and the colon belong to the NAME as sent
+        name = name + gap
         line = name.encode() + b":" + pre.encode() + value.encode() + post.encode()
         out += line + eol()
         val = value.strip(" \t\r\n\x0b\x0c").encode()
